@@ -17,7 +17,7 @@ func init() {
 		Level: "other",
 		Explanation: "Decided (structural necessary conditions of 'parts in declared order'): (R18.1) the loops that build the sheet, slide and chapter lists range forward over the declared list (workbook sheets, p:sldIdLst through the presentation relationships, OPF spine through the manifest), append in that loop, and neither sort the result nor derive it from archive order; for PPTX the declared list is used whenever it is non-empty (nothing else may veto it) and file-name order is only the fallback; (R18.2) EPUB hrefs are percent-decoded as paths (url.PathUnescape, never QueryUnescape) and joined to the package directory; (R18.3) the reported page count is the length of that same list. " +
 			"Not decided: that every declared part is readable, nested/renamed paths at run time, that a part's text appears only in its own page.",
-		Rules: []func(*eng.Ctx){deleteInRangeRule("R18.DR", "epubdoc", "pptx", "xlsx"), ruleAbsoluteTargetsRecognised, ruleDecodedOnce, ruleResolvedHrefCleaned, ruleSlidePartsByDeclaration, ruleFreshDecodeTargetParts, ruleRenderLeavesReader, loopVarRule("R18.LV", "pptx", "epubdoc", "xlsx", "docx", "odt"), ruleDeclaredOrder, ruleHrefDecode, rulePartCount, ruleOPFBaseDir, roleRule("R18.R", "xlsx", "pptx", "epubdoc"), ruleParallelIndex, ruleRelMapTotal, ruleShapeContentModel, ruleDeclaredChildReadPptx, rulePathTrimCutset, rulePositionalDefaultOnlyWhenUndeclared, ruleChaptersInSpineOrder, ruleRelIDAttrQualified, ruleMemberNameExact, ruleSheetAccessorsAgree, ruleFirstRootfile},
+		Rules: []func(*eng.Ctx){ruleContainersInDeclaredOrderEvaluated, ruleWorkbooksEvaluated, deleteInRangeRule("R18.DR", "epubdoc", "pptx", "xlsx"), ruleAbsoluteTargetsRecognised, ruleDecodedOnce, ruleResolvedHrefCleaned, ruleSlidePartsByDeclaration, ruleFreshDecodeTargetParts, ruleRenderLeavesReader, loopVarRule("R18.LV", "pptx", "epubdoc", "xlsx", "docx", "odt"), ruleDeclaredOrder, ruleHrefDecode, rulePartCount, ruleOPFBaseDir, roleRule("R18.R", "xlsx", "pptx", "epubdoc"), ruleParallelIndex, ruleRelMapTotal, ruleShapeContentModel, ruleDeclaredChildReadPptx, rulePathTrimCutset, rulePositionalDefaultOnlyWhenUndeclared, ruleChaptersInSpineOrder, ruleRelIDAttrQualified, ruleMemberNameExact, ruleSheetAccessorsAgree, ruleFirstRootfile},
 	})
 }
 
